@@ -288,6 +288,6 @@ pub fn run(r: &mut Runner) {
         let groups = crate::hist::unary_groups(&[Op::to_degrees, Op::to_radians], &bases, [2.0, 0.0]);
         crate::hist::explore(r, "histories: to_degrees/to_radians", &groups, 3, &hist_judge, 14u64 << 55);
         // cross-family histories: the same judged calls, preceded by every other public function on the same operands
-        crate::hist::explore_mixed(r, "cross-family histories: any public call, then to_degrees/to_radians", &groups[..groups.len().min(2)], 2, &hist_judge, (14u64 << 55) + (1u64 << 53));
+        crate::hist::explore_mixed(r, "cross-family histories: any public call, then to_degrees/to_radians", &groups, 2, &hist_judge, (14u64 << 55) + (1u64 << 53));
     }
 }
